@@ -254,7 +254,32 @@ func c02(r *mon.Run) {
 				t.Count("long-array projections with a non-null expected result")
 			}
 		}}
-	r.Exec(exh, rnd, typed, lng, kindPairsWorkload(r, "C02"))
+	// filter conditions that a null field satisfies (!=, == null, negations) over the heterogeneous documents:
+	// an element that is not an object has no fields - its fields are null, and null != 1 holds
+	fconds := []*gen.Expr{
+		gen.Cmp("!=", gen.Field("a"), gen.LitJSON("1")), gen.Cmp("==", gen.Field("a"), gen.LitJSON("null")), gen.Cmp("!=", gen.Field("a"), gen.LitJSON("null")), gen.Cmp("==", gen.Field("a"), gen.LitJSON("1")),
+		gen.Cmp("!=", gen.Current(), gen.LitJSON("1")), gen.Cmp("!=", gen.Field("a"), gen.Raw("x")), gen.Not(gen.Cmp("==", gen.Field("a"), gen.LitJSON("1"))), gen.Cmp("<", gen.Field("a"), gen.LitJSON("2")),
+		gen.Cmp("!=", gen.Field("a"), gen.Field("b")), gen.Cmp("!=", gen.LitJSON("1"), gen.Field("a")), gen.Not(gen.Field("a")), gen.Cmp("==", gen.Field("a"), gen.Field("missing")),
+		gen.Or(gen.Cmp("==", gen.Field("a"), gen.LitJSON("1")), gen.Not(gen.Field("b"))), gen.Cmp("!=", gen.Field("a"), gen.LitJSON("[]")), gen.Cmp("==", gen.Func("type", gen.Field("a")), gen.Raw("null")),
+	}
+	fshapes := []func(c *gen.Expr) *gen.Expr{
+		func(c *gen.Expr) *gen.Expr { return gen.Chain(nil, gen.StFilter(c)) }, func(c *gen.Expr) *gen.Expr { return gen.Chain(gen.Field("a"), gen.StFilter(c)) },
+		func(c *gen.Expr) *gen.Expr { return gen.Chain(nil, gen.StFilter(c), gen.StField("a")) }, func(c *gen.Expr) *gen.Expr { return gen.Chain(gen.Field("a"), gen.StFilter(c), gen.StIndex(0)) },
+		func(c *gen.Expr) *gen.Expr { return gen.Chain(nil, gen.StListStar(), gen.StFilter(c)) }, func(c *gen.Expr) *gen.Expr {
+			return gen.Pipe(gen.Chain(nil, gen.StFilter(c)), gen.Chain(nil, gen.StIndex(0)))
+		},
+		func(c *gen.Expr) *gen.Expr { return gen.Chain(gen.Field("a"), gen.StFlatten(), gen.StFilter(c)) }, func(c *gen.Expr) *gen.Expr { return gen.Func("length", gen.Chain(gen.Field("a"), gen.StFilter(c))) },
+		func(c *gen.Expr) *gen.Expr { return gen.Chain(gen.Field("b"), gen.StFilter(c), gen.StField("b")) },
+	}
+	fcw := mon.Workload{Name: "filter-comparisons-on-heterogeneous-lists", N: len(fconds) * len(fshapes) * nd,
+		Do: func(i int, t *mon.Tally) {
+			tree := fshapes[i/nd%len(fshapes)](fconds[i/nd/len(fshapes)])
+			doc := pdocs[i%nd]
+			cx := &caseCtx{r, t, "filter-comparisons-on-heterogeneous-lists", i}
+			res, _, _ := cx.runBoth(tree, gen.SpellTight(tree), doc)
+			c02Account(t, tree, gen.SpellTight(tree), doc, res, i)
+		}}
+	r.Exec(exh, rnd, typed, lng, fcw, kindPairsWorkload(r, "C02"))
 }
 
 func c02Account(t *mon.Tally, tree *gen.Expr, expr string, doc interface{}, res ref.Result, i int) {
